@@ -1252,4 +1252,127 @@ theorem erun_inv {m : Model} {P : ProcInfo} {ε ε' : Emu} {evs : List Ev} (hP :
       simp only [hs] at h
       exact ih (estep_sound hP ei hs).1 h
 
+/-- The specification run to its final state. -/
+inductive Spec.ERun (m : Model) : EAbs → List Ev → EAbs → Prop
+  | nil {e : EAbs} : ERun m e [] e
+  | cons {e e' e'' : EAbs} {ev : Ev} {evs : List Ev} :
+      EStep m e ev e' → ERun m e' evs e'' → ERun m e (ev :: evs) e''
+
+theorem erun_final {m : Model} {P : ProcInfo} {ε : Emu} {evs : List Ev} (hP : 0 < P.appid)
+    (ei : EInv m P ε) (e'' : EAbs) :
+    (∃ ε', Emu.run m P ε evs = .ok ε' ∧ eabs ε' = e'') ↔ ERun m (eabs ε) evs e'' := by
+  induction evs generalizing ε with
+  | nil =>
+    constructor
+    · rintro ⟨ε', h, rfl⟩
+      simp only [Emu.run, Except.ok.injEq] at h; subst h; exact ERun.nil
+    · intro h
+      generalize ha : eabs ε = e at h
+      cases h; exact ⟨ε, rfl, ha⟩
+  | cons ev evs ih =>
+    constructor
+    · rintro ⟨ε', h, rfl⟩
+      simp only [Emu.run] at h
+      cases hs : Emu.step m P ε ev with
+      | error e => simp [hs] at h
+      | ok ε1 =>
+        simp only [hs] at h
+        obtain ⟨ei1, st⟩ := estep_sound hP ei hs
+        exact ERun.cons st ((ih ei1).1 ⟨ε', h, rfl⟩)
+    · intro h
+      generalize ha : eabs ε = e at h
+      cases h with
+      | cons st rest =>
+        subst ha
+        obtain ⟨ε1, hs⟩ := estep_complete hP ei st
+        obtain ⟨ei1, st1⟩ := estep_sound hP ei hs
+        have := Spec.EStep.det st st1
+        subst this
+        obtain ⟨ε', h', hfin⟩ := (ih ei1).2 rest
+        exact ⟨ε', by simp only [Emu.run, hs]; exact h', hfin⟩
+
+/-- An event that is not a table-driven push/pop of the "running body" value itself. -/
+def Ev.clean (m : Model) : Ev → Prop
+  | .ssPush _ v => v ≠ m.cfg.stTaskBody
+  | .ssPop _ v => v ≠ m.cfg.stTaskBody
+  | _ => True
+
+/-- Every body on a thread's stack holds one "running body" entry in the thread's subsystem stack. -/
+def SsCovers (m : Model) (ε : Emu) : Prop :=
+  ∀ th, (ε.sys.stacks th).length ≤ (ε.ss th).count m.cfg.stTaskBody
+
+theorem sscovers_step {m : Model} {P : ProcInfo} {ε ε' : Emu} {ev : Ev} (hP : 0 < P.appid)
+    (ei : EInv m P ε) (hc : SsCovers m ε) (hcl : ev.clean m) (hs : Emu.step m P ε ev = .ok ε') :
+    SsCovers m ε' := by
+  obtain ⟨ei', st⟩ := estep_sound hP ei hs
+  have hstk : ∀ th, ε'.sys.stacks th = (eabs ε').a.stack th := fun _ => rfl
+  have hstk0 : ∀ th, ε.sys.stacks th = (eabs ε).a.stack th := fun _ => rfl
+  have hss : ∀ th, ε'.ss th = (eabs ε').ss th := fun _ => rfl
+  have hss0 : ∀ th, ε.ss th = (eabs ε).ss th := fun _ => rfl
+  intro th0
+  rw [hstk, hss]
+  have h0 := hc th0
+  rw [hstk0, hss0] at h0
+  generalize eabs ε' = e' at st
+  generalize eabs ε = e at st h0
+  cases st with
+  | typeCreate s => cases s; exact h0
+  | taskCreate _ s => cases s; exact h0
+  | oldCreate _ => exact h0
+  | @exec th t bp b f a' _ _ s _ _ =>
+    have ha : a'.stack th0 = if th0 = th then (t, b) :: e.a.stack th else e.a.stack th0 := by
+      cases s <;> simp [Abs.setStack, Abs.setPhase]
+    rw [ha]
+    simp only [updFn]
+    split
+    · subst_vars; simp only [List.length_cons, List.count_cons_self]; omega
+    · exact h0
+  | @end_ th t bp b f a' rest _ _ s hr =>
+    have ha : a'.stack th0 = if th0 = th then (e.a.stack th).tail else e.a.stack th0 := by
+      cases s; simp [Abs.setStack, Abs.setPhase]
+    have hne : e.a.stack th ≠ [] := by
+      cases s with
+      | end_ _ htop => intro h; unfold Abs.isTop at htop; rw [h] at htop; cases htop
+    rw [ha]
+    simp only [updFn]
+    split
+    · rename_i heq
+      subst heq
+      rw [hr, List.count_cons_self] at h0
+      have : (e.a.stack th0).length ≠ 0 := by simpa using hne
+      simp only [List.length_tail]; omega
+    · exact h0
+  | pause _ _ s => cases s; exact h0
+  | resume _ _ s => cases s; exact h0
+  | @ssPush th v _ =>
+    simp only [updFn]
+    split
+    · subst_vars
+      rw [List.count_cons]
+      omega
+    · exact h0
+  | @ssPop th v rest hr =>
+    simp only [updFn]
+    split
+    · subst_vars
+      have hv : v ≠ m.cfg.stTaskBody := hcl
+      rw [hr, List.count_cons_of_ne hv] at h0
+      exact h0
+    · exact h0
+
+theorem sscovers_run {m : Model} {P : ProcInfo} {ε ε' : Emu} {evs : List Ev} (hP : 0 < P.appid)
+    (ei : EInv m P ε) (hc : SsCovers m ε) (hcl : ∀ ev ∈ evs, ev.clean m)
+    (h : Emu.run m P ε evs = .ok ε') : SsCovers m ε' := by
+  induction evs generalizing ε with
+  | nil => simp only [Emu.run, Except.ok.injEq] at h; subst h; exact hc
+  | cons ev evs ih =>
+    simp only [Emu.run] at h
+    cases hs : Emu.step m P ε ev with
+    | error e => simp [hs] at h
+    | ok ε1 =>
+      simp only [hs] at h
+      exact ih (estep_sound hP ei hs).1
+        (sscovers_step hP ei hc (hcl ev List.mem_cons_self) hs)
+        (fun ev' hm => hcl ev' (List.mem_cons_of_mem _ hm)) h
+
 end Ovni.Task
